@@ -1,4 +1,605 @@
-//! headercodec: not built yet.
-pub fn run(args: &vh_common::Args) {
-    vh_common::unknown(args)
+//! HeaderCodec (C02): `Header<E>` CBOR encode / decode / sign / verify / hash against
+//! spec/HeaderCodec.
+//!
+//! The specification speaks about header *shapes* (payload size zero / non-zero, payload hash
+//! present, seq_num zero / non-zero, backlink present, kind of extensions) and abstract CBOR
+//! items. This module concretises every shape with many real headers (seeded field values with
+//! the CBOR integer-width boundaries, real Ed25519 keys and signatures, real BLAKE3 hashes) and
+//! compares, on real bytes, the observables the specification prescribes:
+//!
+//! * replay: one TLC-exported behaviour per shape (sign, encode, k decodes of the same bytes, a
+//!   "twin" = equal value built by another route and signed with the same key),
+//! * record: random shapes (up to 8 `previous` hashes) on the real code, one event per spec
+//!   action, validated by `Trace_HeaderCodec.tla`.
+//!
+//! Values of the Node API `Extensions` type can only be obtained with arbitrary field values by
+//! decoding CBOR (fields are private; the causal variant has no constructor), so every
+//! `Extensions` instance is built from a hand-written CBOR tuple
+//! `(1, variant, log_id, timestamp, prune_flag | [previous..])`.
+use std::fmt::Debug;
+
+use ciborium::Value as Cbor;
+use p2panda::operation::Extensions as NodeExtensions;
+use p2panda_core::cbor::decode_cbor;
+use p2panda_core::{Extensions, Hash, Header, SigningKey, validate_header};
+use serde::{Deserialize, Serialize};
+use vh_common::{Args, Outcome, Rng, TraceWriter, Value, catch, json, read_ndjson, unknown};
+
+/// Disagreements between model and code that are *not* C02 violations (encoding layout, the
+/// decoder's verdict on inconsistent or unsigned headers) are reported under this id: the driver
+/// lists them as warnings ("specification drifted"), they never fail C02.
+const MODEL: &str = "C02-model";
+
+pub fn run(args: &Args) {
+    match args.mode.as_str() {
+        "replay" => replay(args),
+        "record" => record(args),
+        _ => unknown(args),
+    }
+}
+
+// ------------------------------------------------------------------------------------------
+// Shapes and their concretisation
+
+#[derive(Clone, Debug, PartialEq, Eq)]
+struct Shape {
+    size: u64,
+    hash: bool,
+    seq: u64,
+    back: bool,
+    kind: String,
+    prune: bool,
+    n: usize,
+}
+
+impl Shape {
+    fn from_json(v: &Value) -> Shape {
+        Shape {
+            size: v["size"].as_u64().expect("size"),
+            hash: v["hash"].as_bool().expect("hash"),
+            seq: v["seq"].as_u64().expect("seq"),
+            back: v["back"].as_bool().expect("back"),
+            kind: v["kind"].as_str().expect("kind").to_string(),
+            prune: v["prune"].as_bool().expect("prune"),
+            n: v["n"].as_u64().expect("n") as usize,
+        }
+    }
+
+    fn to_json(&self) -> Value {
+        json!({"size": self.size, "hash": self.hash, "seq": self.seq, "back": self.back,
+               "kind": self.kind, "prune": self.prune, "n": self.n})
+    }
+
+    fn consistent(&self) -> bool {
+        ((self.size > 0) == self.hash) && ((self.seq > 0) == self.back)
+    }
+}
+
+/// A derive(Serialize) extension type (encoded as a CBOR map): stands for "any extension type".
+#[derive(Clone, Debug, PartialEq, Eq, Serialize, Deserialize)]
+struct Custom {
+    number: u64,
+    link: Option<Hash>,
+    label: String,
+    flag: bool,
+    list: Vec<u32>,
+}
+
+fn random_hash(rng: &mut Rng) -> Hash {
+    let mut b = [0u8; 32];
+    match rng.below(12) {
+        0 => {}                     // all zero
+        1 => b = [0xff; 32],        // all ones
+        2 => b[31] = rng.next_u64() as u8, // leading zeros
+        _ => b.copy_from_slice(&rng.bytes(32)),
+    }
+    Hash::from_bytes(b)
+}
+
+/// Non-zero value around the CBOR integer-width boundaries (<= max).
+fn nonzero(rng: &mut Rng, max: u64) -> u64 {
+    const EDGES: [u64; 12] = [1, 2, 23, 24, 25, 255, 256, 65_535, 65_536, 4_294_967_295, 4_294_967_296, u64::MAX];
+    let v = match rng.below(3) {
+        0 => *rng.pick(&EDGES),
+        1 => rng.next_u64() >> rng.below(64),
+        _ => rng.range(1, 1000),
+    };
+    v.clamp(1, max)
+}
+
+fn any_u64(rng: &mut Rng) -> u64 {
+    if rng.chance(1, 6) { 0 } else { nonzero(rng, u64::MAX) }
+}
+
+fn distinct_hashes(rng: &mut Rng, n: usize) -> Vec<Hash> {
+    let mut out: Vec<Hash> = Vec::new();
+    while out.len() < n {
+        let h = Hash::from_bytes(rng.bytes(32).try_into().unwrap());
+        if !out.contains(&h) {
+            out.push(h);
+        }
+    }
+    out
+}
+
+fn cbor_hash(h: &Hash) -> Cbor {
+    Cbor::Bytes(h.as_bytes().to_vec())
+}
+
+fn cbor_bytes(v: &Cbor) -> Vec<u8> {
+    let mut bytes = Vec::new();
+    ciborium::ser::into_writer(v, &mut bytes).expect("encode cbor value");
+    bytes
+}
+
+/// Field values of one Node API extension (both variants).
+#[derive(Clone, Debug)]
+struct NodeExtValues {
+    causal: bool,
+    log_id: Hash,
+    timestamp: u64,
+    prune: bool,
+    previous: Vec<Hash>,
+}
+
+impl NodeExtValues {
+    /// `(1, variant, log_id, timestamp, prune | [previous in the given order], extra..)`.
+    fn cbor(&self, previous: &[Hash], excess_field: bool) -> Vec<u8> {
+        let mut items = vec![
+            Cbor::Integer(1.into()),
+            Cbor::Integer((self.causal as u8).into()),
+            cbor_hash(&self.log_id),
+            Cbor::Integer(self.timestamp.into()),
+            if self.causal {
+                Cbor::Array(previous.iter().map(cbor_hash).collect())
+            } else {
+                Cbor::Bool(self.prune)
+            },
+        ];
+        if excess_field {
+            // forward-compatible excess field, ignored by the decoder (operation.rs "Allow excess fields")
+            items.push(Cbor::Text("field of a future version".into()));
+        }
+        cbor_bytes(&Cbor::Array(items))
+    }
+}
+
+/// One concrete header under test, generic in the extension type.
+struct Case<E> {
+    key: SigningKey,
+    header: Header<E>,
+    /// the equal value obtained by another route
+    twin_ext: E,
+}
+
+fn base_header<E>(shape: &Shape, rng: &mut Rng, ext: E) -> (SigningKey, Header<E>) {
+    let key = SigningKey::from_bytes(&rng.bytes(32).try_into().unwrap());
+    let header = Header {
+        version: 1,
+        verifying_key: key.verifying_key(),
+        signature: None,
+        payload_size: if shape.size == 0 { 0 } else { nonzero(rng, u32::MAX as u64) as u32 },
+        payload_hash: if shape.hash { Some(random_hash(rng)) } else { None },
+        seq_num: if shape.seq == 0 { 0 } else { nonzero(rng, u32::MAX as u64) as u32 },
+        backlink: if shape.back { Some(random_hash(rng)) } else { None },
+        extensions: ext,
+    };
+    (key, header)
+}
+
+fn node_case(shape: &Shape, rng: &mut Rng) -> Result<Case<NodeExtensions>, String> {
+    let causal = shape.kind == "causal";
+    let values = NodeExtValues {
+        causal,
+        log_id: random_hash(rng),
+        timestamp: any_u64(rng),
+        prune: shape.prune,
+        previous: if causal { distinct_hashes(rng, shape.n) } else { vec![] },
+    };
+    let ext: NodeExtensions =
+        decode_cbor(&values.cbor(&values.previous, false)[..]).map_err(|e| format!("cannot build extensions: {e}"))?;
+    // the twin: same value from CBOR that lists `previous` in another order, repeats one of the
+    // hashes (a set swallows it) and carries a forward-compatible excess field
+    let mut other = values.previous.clone();
+    rng.shuffle(&mut other);
+    if !other.is_empty() && rng.chance(1, 3) {
+        other.push(other[0]);
+    }
+    let twin_ext: NodeExtensions = decode_cbor(&values.cbor(&other, rng.chance(1, 2))[..])
+        .map_err(|e| format!("cannot build twin extensions: {e}"))?;
+    let (key, header) = base_header(shape, rng, ext);
+    Ok(Case { key, header, twin_ext })
+}
+
+fn custom_case(shape: &Shape, rng: &mut Rng) -> Case<Custom> {
+    let ext = Custom {
+        number: any_u64(rng),
+        link: if rng.chance(1, 2) { Some(random_hash(rng)) } else { None },
+        label: (0..rng.below(30)).map(|_| *rng.pick(&['a', 'ß', '0', ' ', '\u{1F43C}'])).collect(),
+        flag: rng.chance(1, 2),
+        list: (0..rng.below(5)).map(|_| nonzero(rng, u32::MAX as u64) as u32).collect(),
+    };
+    // the twin: the same value after a trip through JSON (another way to obtain it)
+    let twin_ext: Custom = serde_json::from_str(&serde_json::to_string(&ext).unwrap()).unwrap();
+    let (key, header) = base_header(shape, rng, ext);
+    Case { key, header, twin_ext }
+}
+
+fn zst_case(shape: &Shape, rng: &mut Rng) -> Case<()> {
+    let (key, header) = base_header(shape, rng, ());
+    Case { key, header, twin_ext: () }
+}
+
+// ------------------------------------------------------------------------------------------
+// Reading real bytes back into the specification's vocabulary
+
+/// Type tokens of the top-level CBOR array (`Layout` in MC_HeaderCodec.tla).
+fn layout(bytes: &[u8]) -> Vec<String> {
+    let Ok(Cbor::Array(items)) = ciborium::de::from_reader::<Cbor, _>(bytes) else {
+        return vec!["not-an-array".into()];
+    };
+    items
+        .iter()
+        .map(|it| match it {
+            Cbor::Integer(i) => {
+                if i128::from(*i) == 0 { "u0".to_string() } else { "u+".to_string() }
+            }
+            Cbor::Bytes(b) if b.len() == 32 => "b32".into(),
+            Cbor::Bytes(b) if b.len() == 64 => "b64".into(),
+            Cbor::Bytes(b) => format!("bytes{}", b.len()),
+            Cbor::Array(_) => "arr".into(),
+            Cbor::Map(_) => "map".into(),
+            other => format!("other:{other:?}").chars().take(24).collect(),
+        })
+        .collect()
+}
+
+/// Order of the `previous` hashes inside an encoding, each hash named by its position (1-based)
+/// in `names` (the order of the run's first encoding). 0 = a hash that is not in `names`.
+fn prev_order(bytes: &[u8], names: &[Hash]) -> Vec<u64> {
+    let Ok(Cbor::Array(items)) = ciborium::de::from_reader::<Cbor, _>(bytes) else {
+        return vec![];
+    };
+    let Some(Cbor::Array(ext)) = items.last() else {
+        return vec![];
+    };
+    let Some(Cbor::Array(prev)) = ext.get(4) else {
+        return vec![];
+    };
+    prev.iter()
+        .map(|p| match p {
+            Cbor::Bytes(b) => names.iter().position(|h| h.as_bytes()[..] == b[..]).map(|i| i as u64 + 1).unwrap_or(0),
+            _ => 0,
+        })
+        .collect()
+}
+
+/// `previous` hashes in the order of an encoding.
+fn prev_hashes(bytes: &[u8]) -> Vec<Hash> {
+    let Ok(Cbor::Array(items)) = ciborium::de::from_reader::<Cbor, _>(bytes) else {
+        return vec![];
+    };
+    let Some(Cbor::Array(ext)) = items.last() else {
+        return vec![];
+    };
+    let Some(Cbor::Array(prev)) = ext.get(4) else {
+        return vec![];
+    };
+    prev.iter()
+        .filter_map(|p| match p {
+            Cbor::Bytes(b) => <[u8; 32]>::try_from(&b[..]).ok().map(Hash::from_bytes),
+            _ => None,
+        })
+        .collect()
+}
+
+// ------------------------------------------------------------------------------------------
+// Observations of one concrete header (all through the public API of p2panda-core)
+
+#[derive(Debug, Clone, Default)]
+struct DecodeObs {
+    ok: bool,
+    eq: bool,
+    same_bytes: bool,
+    verifies: bool,
+    validates: bool,
+    same_id: bool,
+    ord: Vec<u64>,
+}
+
+#[derive(Debug, Clone, Default)]
+struct Obs {
+    sign_layout: Vec<String>,
+    sign_verifies: bool,
+    unsigned_decodes: bool,
+    wire_layout: Vec<String>,
+    wire_prev: Vec<u64>,
+    wire_hex: String,
+    id_hex: String,
+    decodes: Vec<DecodeObs>,
+    twin_ord: Vec<u64>,
+    twin_same_bytes: bool,
+    twin_same_id: bool,
+    twin_verifies: bool,
+}
+
+fn observe<E>(case: Case<E>, decodes: usize) -> Obs
+where
+    E: Extensions + PartialEq + Debug,
+{
+    let Case { key, mut header, twin_ext } = case;
+    let mut obs = Obs::default();
+
+    // Sign: the bytes that get signed are the encoding of the header without signature
+    header.signature = None;
+    let unsigned_bytes = header.to_bytes();
+    obs.sign_layout = layout(&unsigned_bytes);
+    obs.unsigned_decodes = decode_cbor::<Header<E>, _>(&unsigned_bytes[..]).is_ok();
+    // elements of `previous` are named by their position in this very first encoding
+    let names = prev_hashes(&unsigned_bytes);
+    header.sign(&key);
+    obs.sign_verifies = header.verify();
+
+    // Encode
+    let wire = header.to_bytes();
+    let id = header.hash();
+    obs.wire_layout = layout(&wire);
+    obs.wire_prev = prev_order(&wire, &names);
+    obs.wire_hex = wire.iter().map(|b| format!("{b:02x}")).collect();
+    obs.id_hex = id.to_hex();
+
+    // Decode the same bytes again and again
+    for _ in 0..decodes {
+        let mut d = DecodeObs::default();
+        if let Ok(again) = decode_cbor::<Header<E>, _>(&wire[..]) {
+            let bytes = again.to_bytes();
+            d.ok = true;
+            d.eq = again == header;
+            d.same_bytes = bytes == wire;
+            d.verifies = again.verify();
+            d.validates = validate_header(&again).is_ok();
+            d.same_id = again.hash() == id;
+            d.ord = prev_order(&bytes, &names);
+        }
+        obs.decodes.push(d);
+    }
+
+    // Twin: an equal value obtained by another route, signed with the same key
+    // (Ed25519 signatures are deterministic: equal bytes <=> equal signature)
+    let mut twin = Header { extensions: twin_ext, signature: None, ..header.clone() };
+    twin.sign(&key);
+    let twin_bytes = twin.to_bytes();
+    // equality of the *values* (the signature is a function of the bytes, which is what is tested)
+    let twin_equal = Header { signature: None, ..twin.clone() } == Header { signature: None, ..header.clone() };
+    obs.twin_ord = prev_order(&twin_bytes, &names);
+    obs.twin_same_bytes = twin_equal && twin_bytes == wire;
+    obs.twin_same_id = twin_equal && twin.hash() == id;
+    obs.twin_verifies = twin.verify();
+    if !twin_equal {
+        // harness error, not a finding: the twin must be the same value
+        eprintln!("harness bug: twin value differs from the original");
+        std::process::exit(2);
+    }
+    obs
+}
+
+fn observe_shape(shape: &Shape, rng: &mut Rng, decodes: usize) -> Result<Obs, String> {
+    let shape = shape.clone();
+    let mut local = rng.clone();
+    let r = catch(move || -> Result<Obs, String> {
+        match shape.kind.as_str() {
+            "zst" => Ok(observe(zst_case(&shape, &mut local), decodes)),
+            "custom" => Ok(observe(custom_case(&shape, &mut local), decodes)),
+            "basic" | "causal" => Ok(observe(node_case(&shape, &mut local)?, decodes)),
+            other => Err(format!("unknown extension kind {other}")),
+        }
+    });
+    // advance the caller's generator independently of how much the case consumed
+    rng.next_u64();
+    match r {
+        Ok(x) => x,
+        Err(p) => Err(format!("panic: {p}")),
+    }
+}
+
+// ------------------------------------------------------------------------------------------
+// replay
+
+/// Registers a violation and counts it per (property, signature) so that the result shows every
+/// failure class even when only the first few violations are kept.
+fn report(out: &mut Outcome, property: &str, signature: &str, detail: String, case: Value) {
+    out.count(&format!("violation:{property}:{signature}"));
+    out.violation(property, signature, detail, case);
+}
+
+fn str_vec(v: &Value) -> Vec<String> {
+    v.as_array().map(|a| a.iter().map(|x| x.as_str().unwrap_or("?").to_string()).collect()).unwrap_or_default()
+}
+
+fn u64_vec(v: &Value) -> Vec<u64> {
+    v.as_array().map(|a| a.iter().map(|x| x.as_u64().unwrap_or(0)).collect()).unwrap_or_default()
+}
+
+fn replay(args: &Args) {
+    let behaviours = read_ndjson(args.input.as_ref().expect("--in"));
+    let per_shape = args.extra_usize("per_shape", if args.thorough() { 500 } else { 20 });
+    let mut rng = Rng::new(args.seed);
+    let mut out = Outcome::new(
+        args,
+        "every TLC-exported header shape concretised with `per_shape` seeded real headers (real keys, signatures, hashes; \
+         integer fields at the CBOR width boundaries); evaluation = one concrete header taken through sign, encode, \
+         k decodes of the same bytes and a twin built by another route; non-trivial = consistent shape (the header \
+         validates) and it decoded; distinct by operation id",
+    );
+    for b in &behaviours {
+        if b["kind"].as_str() != Some("codec") {
+            eprintln!("unknown behaviour kind: {b}");
+            std::process::exit(2);
+        }
+        let shape = Shape::from_json(&b["shape"]);
+        let consistent = b["consistent"].as_bool().expect("consistent");
+        let steps = b["steps"].as_array().expect("steps");
+        let decodes = steps.iter().filter(|s| s["a"] == "Decode").count();
+        // a failing concrete case is replayable standalone: behaviour + seed of the concrete header
+        let fixed_seed = b.get("case_seed").and_then(|s| s.as_u64());
+        let runs = if fixed_seed.is_some() { 1 } else { per_shape };
+        for _ in 0..runs {
+            let case_seed = fixed_seed.unwrap_or_else(|| rng.next_u64() >> 12);
+            let mut case_rng = Rng::new(case_seed);
+            let mut case = b.clone();
+            case["case_seed"] = json!(case_seed);
+            out.eval();
+            out.count(&format!("kind:{}", shape.kind));
+            let obs = match observe_shape(&shape, &mut case_rng, decodes) {
+                Ok(o) => o,
+                Err(p) => {
+                    report(&mut out, "C02", "codec-panics-or-cannot-build", p, case);
+                    continue;
+                }
+            };
+            let prop = if consistent { "C02" } else { MODEL };
+            let mut di = 0;
+            let mut all_ok = true;
+            for step in steps {
+                match step["a"].as_str().unwrap_or("") {
+                    "Sign" => {
+                        if obs.sign_layout != str_vec(&step["layout"]) {
+                            report(&mut out, MODEL, "unsigned-layout-differs-from-spec",
+                                format!("unsigned encoding is {:?}, spec says {}", obs.sign_layout, step["layout"]), case.clone());
+                        }
+                        if obs.sign_verifies != step["verifies"].as_bool().unwrap() {
+                            all_ok = false;
+                            report(&mut out, "C02", "fresh-signature-does-not-verify",
+                                format!("verify() right after sign() = {}", obs.sign_verifies), case.clone());
+                        }
+                        if obs.unsigned_decodes != b["unsigned_decodes"].as_bool().unwrap() {
+                            report(&mut out, MODEL, "unsigned-header-decodes",
+                                format!("decoding the unsigned encoding succeeded = {}", obs.unsigned_decodes), case.clone());
+                        }
+                    }
+                    "Encode" => {
+                        if obs.wire_layout != str_vec(&step["layout"]) {
+                            report(&mut out, MODEL, "layout-differs-from-spec",
+                                format!("encoding is {:?}, spec says {}", obs.wire_layout, step["layout"]), case.clone());
+                        }
+                        if obs.wire_prev != u64_vec(&step["prev"]) {
+                            report(&mut out, MODEL, "previous-order-differs-from-spec",
+                                format!("`previous` written as {:?}, spec says {}", obs.wire_prev, step["prev"]), case.clone());
+                        }
+                    }
+                    "Decode" => {
+                        let d = &obs.decodes[di];
+                        di += 1;
+                        let exp = |k: &str| step[k].as_bool().unwrap();
+                        let checks: [(&str, bool, bool, &str); 6] = [
+                            ("ok", d.ok, exp("ok"), "decode-verdict-differs"),
+                            ("eq", d.eq, exp("eq"), "roundtrip-not-equal"),
+                            ("same_bytes", d.same_bytes, exp("same_bytes"), "reencode-differs"),
+                            ("verifies", d.verifies, exp("verifies"), "verify-fails-after-decode"),
+                            ("validates", d.validates, exp("validates"), "validate-fails-after-decode"),
+                            ("same_id", d.same_id, exp("same_id"), "id-changes-after-decode"),
+                        ];
+                        for (name, got, want, sig) in checks {
+                            if got != want {
+                                all_ok = false;
+                                // what went wrong with `previous`, if anything, is part of the detail
+                                report(&mut out, prop, sig,
+                                    format!("decode #{di} of {}: {name} = {got}, spec says {want}; `previous` re-encoded in order {:?} (1..n = as signed); kind={} n={}",
+                                        &obs.id_hex[..16], d.ord, shape.kind, shape.n),
+                                    case.clone());
+                                break; // first failing observable names the class
+                            }
+                        }
+                    }
+                    "Twin" => {
+                        let checks: [(&str, bool, bool, &str); 3] = [
+                            ("same_bytes", obs.twin_same_bytes, step["same_bytes"].as_bool().unwrap(), "equal-values-encode-differently"),
+                            ("same_id", obs.twin_same_id, step["same_id"].as_bool().unwrap(), "equal-values-have-different-ids"),
+                            ("verifies", obs.twin_verifies, step["verifies"].as_bool().unwrap(), "fresh-signature-does-not-verify"),
+                        ];
+                        for (name, got, want, sig) in checks {
+                            if got != want {
+                                all_ok = false;
+                                report(&mut out, "C02", sig,
+                                    format!("twin of {} (equal value built by another route): {name} = {got}, spec says {want}; `previous` encoded in order {:?}; kind={} n={}",
+                                        &obs.id_hex[..16], obs.twin_ord, shape.kind, shape.n),
+                                    case.clone());
+                                break;
+                            }
+                        }
+                    }
+                    other => {
+                        eprintln!("unknown step {other}");
+                        std::process::exit(2);
+                    }
+                }
+            }
+            if consistent && obs.decodes.iter().all(|d| d.ok) {
+                out.mark_distinct(obs.id_hex.clone());
+            }
+            if !consistent {
+                out.count("inconsistent_shape_cases");
+            }
+            if all_ok {
+                out.sample(json!({"shape": shape.to_json(), "case_seed": case_seed, "id": obs.id_hex, "bytes": obs.wire_hex}));
+            }
+        }
+    }
+    out.write(args);
+}
+
+// ------------------------------------------------------------------------------------------
+// record
+
+fn record(args: &Args) {
+    let mut rng = Rng::new(args.seed);
+    let n = if args.n > 0 { args.n } else { 200 };
+    let mut trace = TraceWriter::create(args.out.as_ref().expect("--out"));
+    let mut out = Outcome::new(
+        args,
+        "seeded random header shapes (all extension kinds, up to 8 `previous` hashes, consistent and inconsistent) on the \
+         real code; one trace event per spec action with the observables read off the real bytes; distinct by operation id",
+    );
+    for run in 0..n {
+        let kind = *rng.pick(&["zst", "custom", "basic", "causal", "causal", "causal"]);
+        // mostly consistent headers; one in six has an inconsistent field pair
+        let size = rng.below(2);
+        let seq = rng.below(2);
+        let broken = rng.chance(1, 6);
+        let shape = Shape {
+            size,
+            hash: if broken && rng.chance(1, 2) { size == 0 } else { size > 0 },
+            seq,
+            back: if broken && rng.chance(1, 2) { seq == 0 } else { seq > 0 },
+            kind: kind.to_string(),
+            prune: kind == "basic" && rng.chance(1, 2),
+            n: if kind == "causal" { rng.below(9) as usize } else { 0 },
+        };
+        let decodes = rng.range(1, 4) as usize;
+        out.eval();
+        out.count(&format!("kind:{}", shape.kind));
+        let obs = match observe_shape(&shape, &mut rng, decodes) {
+            Ok(o) => o,
+            Err(p) => {
+                report(&mut out, "C02", "codec-panics-or-cannot-build", p, json!({"shape": shape.to_json(), "run": run}));
+                continue;
+            }
+        };
+        trace.event(json!({"ev": "Reset", "run": run, "shape": shape.to_json()}));
+        trace.event(json!({"ev": "Sign", "layout": obs.sign_layout, "verifies": obs.sign_verifies}));
+        trace.event(json!({"ev": "Encode", "layout": obs.wire_layout, "prev": obs.wire_prev}));
+        for d in &obs.decodes {
+            trace.event(json!({"ev": "Decode", "ok": d.ok, "eq": d.eq, "ord": d.ord, "same_bytes": d.same_bytes,
+                               "verifies": d.verifies, "validates": d.validates, "same_id": d.same_id}));
+        }
+        trace.event(json!({"ev": "Twin", "ord": obs.twin_ord, "same_bytes": obs.twin_same_bytes,
+                           "same_id": obs.twin_same_id, "verifies": obs.twin_verifies}));
+        if shape.consistent() && obs.decodes.iter().all(|d| d.ok) {
+            out.mark_distinct(obs.id_hex.clone());
+        }
+        out.sample(json!({"shape": shape.to_json(), "id": obs.id_hex, "bytes": obs.wire_hex}));
+    }
+    let (events, runs) = trace.finish();
+    out.set_trace(events, runs);
+    out.write(args);
 }
